@@ -157,8 +157,8 @@ fn value_of_leaf(enc: Enc, ty: &Ty, l: &Leaf) -> Option<String> {
         Ty::I64 | Ty::I32 => {
             let foreign = text.iter().any(|b| !b.is_ascii_digit() && *b != b'+' && *b != b'-');
             let (neg, m) = match ref_int(&text) { Some(x) => x, None => return if foreign { ty_err } else { None } };
-            if m > i64::MAX as u128 { return ty_err; }
-            let v = if neg { -(m as i64) } else { m as i64 };
+            if m > i64::MAX as u128 && !(neg && m == 1u128 << 63) { return ty_err; }
+            let v = if neg { (-(m as i128)) as i64 } else { m as i64 };
             if *ty == Ty::I32 && i32::try_from(v).is_err() { return ty_err; }
             Some(format!("i{}", v))
         }
@@ -266,8 +266,16 @@ fn value_of_node(enc: Enc, ty: &Ty, n: &Node, op: Option<Op>) -> Option<String> 
             }
             _ => None,
         },
-        Node::Header(..) | Node::Rgb(..) | Node::Mixed(..) => None,
+        // a header value read with a scalar target (not `any`: the tape path would present the body) is its
+        // name on both paths; the body is skipped
+        Node::Header(name, _) => if has_any(ty) { None } else { value_of_leaf(enc, ty, &Leaf::Unq(name.clone())) },
+        Node::Rgb(..) => if has_any(ty) { None } else { value_of_leaf(enc, ty, &Leaf::Unq(b"rgb".to_vec())) },
+        Node::Mixed(..) => None,
     }
+}
+
+fn has_any(t: &Ty) -> bool {
+    match t { Ty::Any => true, Ty::Opt(x) | Ty::Seq(x) | Ty::Map(x) | Ty::Prop(x) => has_any(x), Ty::Struct(fs) => fs.iter().any(|(_, x)| has_any(x)), _ => false }
 }
 
 fn value_of(enc: Enc, ty: &Ty, doc: &Doc) -> Option<String> {
@@ -367,7 +375,12 @@ fn gen_node_ty(rng: &mut Rng, n: &Node, cfg: &TyCfg) -> Ty {
                 Ty::Seq(Box::new(Ty::Ign))
             }
         }
-        Node::Rgb(..) | Node::Header(..) | Node::Mixed(..) => if rng.chance(1, 6) { Ty::Opt(Box::new(Ty::Ign)) } else { Ty::Ign },
+        Node::Rgb(..) | Node::Header(..) | Node::Mixed(..) => match rng.below(8) {
+            0 => Ty::Opt(Box::new(Ty::Ign)),
+            1 => Ty::Str,
+            2 => Ty::Enum(vec!["LIST".into(), "hsv".into(), "rgb".into()]),
+            _ => Ty::Ign,
+        },
     }
 }
 
@@ -508,6 +521,11 @@ fn ser_node(n: &Node) -> Option<String> {
         Node::Leaf(l) => Some(match l { Leaf::Quo(b) => format!("q{}", hex(b)), other => format!("u{}", hex(&leaf_text(other).0)) }),
         Node::Obj(fs) if !fs.is_empty() => Some(format!("o[{}]", ser_fields(fs)?)),
         Node::Arr(vs) => Some(format!("a[{}]", vs.iter().map(ser_node).collect::<Option<Vec<_>>>()?.join(";"))),
+        Node::Header(name, body) if matches!(**body, Node::Obj(_) | Node::Arr(_)) => Some(format!("h{}:{}", hex(name), ser_node(body)?)),
+        Node::Rgb(r, g, b, a) => {
+            let cs: Vec<String> = [Some(*r), Some(*g), Some(*b), *a].iter().flatten().map(|c| format!("u{}", hex(c.to_string().as_bytes()))).collect();
+            Some(format!("h{}:a[{}]", hex(b"rgb"), cs.join(";")))
+        }
         _ => None,
     }
 }
@@ -556,11 +574,17 @@ pub fn exec(w: &[&str], obs: &mut Obs) -> Option<String> {
             // L3: the slice front end is the same path
             let s = run_slice(enc, &ty, &data);
             if s != r { obs.violation("tape-vs-slice", &case(), &format!("tape {} slice {}", r, s)); }
-            if *expect != "-" {
+            if let Some(kind) = expect.strip_prefix('!') {
+                // probe of a RECORDED known divergence (known_findings.txt): reported under its own kind
+                let (x, _) = run_reader(enc, &ty, TokenReader::new(&data[..]));
+                if kind == "array-leading-empty" {
+                    if x != r { obs.violation(kind, &case(), &format!("tape {} reader {}", r, x)); } else { obs.count("probe-agrees:array-leading-empty"); }
+                }
+            } else if *expect != "-" {
                 obs.count("tape:with-expectation");
                 if r != *expect { obs.violation("value-of", &case(), &format!("tape path {} reference {}", r, expect)); }
                 // L3: the reader path over the same bytes yields an equal value
-                let (x, _) = run_reader(enc, &ty, TokenReader::new(&data[..]));
+                let (x, _) = run_reader(enc, &ty, TokenReader::from_slice(&data));
                 if x != r { obs.violation("paths-disagree", &case(), &format!("tape {} reader {}", r, x)); }
             }
             Some(r)
@@ -581,9 +605,15 @@ pub fn exec(w: &[&str], obs: &mut Obs) -> Option<String> {
             let (c, full) = run_reader(enc, &ty, TokenReader::builder().buffer_len(cap).build(sched::SchedReader::new(&data, steps)));
             if full { obs.count("stream:chunked-buffer-full"); }
             else if c != r { violation(obs, "stream-chunking", format!("slice reader {} chunked {}", r, c)); }
-            let (d, _) = run_reader(enc, &ty, TokenReader::new(&data[..]));
-            if d != r { violation(obs, "stream-chunking", format!("slice reader {} default reader {}", r, d)); }
-            if *expect != "-" {
+            // the default 32 KiB reader as well (a quarter of the cases: allocating the buffer dominates the run)
+            if data.len() % 4 == 0 {
+                let (d, _) = run_reader(enc, &ty, TokenReader::new(&data[..]));
+                if d != r { violation(obs, "stream-chunking", format!("slice reader {} default reader {}", r, d)); }
+            }
+            if let Some(kind) = expect.strip_prefix('!') {
+                let s = run_slice(enc, &ty, &data);
+                if s != r { obs.violation(kind, &case(), &format!("reader {} tape {}", r, s)); } else { obs.count(&format!("probe-agrees:{}", kind)); }
+            } else if *expect != "-" {
                 obs.count("stream:with-expectation");
                 if r != *expect { violation(obs, "value-of", format!("stream path {} reference {}", r, expect)); }
                 let s = run_slice(enc, &ty, &data);
@@ -680,7 +710,7 @@ pub fn gen(g: &mut Gen) {
         }
     }
     // 1. well-formed save-style documents x layouts x encodings x target types
-    let n = g.budget(30_000, 300_000);
+    let n = g.budget(15_000, 180_000);
     let cfg = DocCfg::save_style();
     for i in 0..n {
         let mut doc = gen_doc(&mut g.rng, &cfg);
@@ -699,7 +729,7 @@ pub fn gen(g: &mut Gen) {
         }
     }
     // 2. documents with operators: Property capture (operators on any field, first fields included since the F9 repair)
-    let n = g.budget(6_000, 60_000);
+    let n = g.budget(3_000, 36_000);
     let cfg_ops = DocCfg { operators: true, ..DocCfg::save_style() };
     for _ in 0..n {
         let mut doc = gen_doc(&mut g.rng, &cfg_ops);
@@ -719,7 +749,7 @@ pub fn gen(g: &mut Gen) {
         emit_spec(g, enc, &ty, &doc, expect.as_deref());
     }
     // 3. malformed stream: mutations of rendered documents, random text; no expectation, correspondence only
-    let n = g.budget(12_000, 120_000);
+    let n = g.budget(6_000, 72_000);
     for _ in 0..n {
         let doc = gen_doc(&mut g.rng, &DocCfg { max_fields: 4, ..DocCfg::text_full() });
         let base = render_layout(&mut g.rng, &LayoutCfg::reader_safe(), &lexemes(&doc));
@@ -731,7 +761,7 @@ pub fn gen(g: &mut Gen) {
         emit_pair(g, enc, &ty, &data, None);
     }
     // 4. real derived structs against the Ty interpreter
-    let n = g.budget(5_000, 50_000);
+    let n = g.budget(2_500, 30_000);
     for i in 0..n {
         let enc = if i % 2 == 0 { Enc::W } else { Enc::U };
         if i % 4 == 3 {
@@ -743,14 +773,34 @@ pub fn gen(g: &mut Gen) {
             if i % 8 == 0 { emit_pair(g, enc, &parse_ty(derived::TOP_TY).unwrap(), &data, None); }
         }
     }
-    // 5. known divergences, observed (not part of the well-formed document model)
+    // 5. RECORDED known divergences (known_findings.txt), probed with the real ops and reported under their
+    //    own oracle kinds; they are not part of the well-formed document model
+    let word = |rng: &mut Rng| -> String { (0..rng.range(1, 5)).map(|_| (b'a' + rng.below(26) as u8) as char).collect() };
+    for i in 0..12 {
+        // an empty `{}` as FIRST element of an array: dropped by the tape parser, kept by the reader path
+        let key = *g.rng.pick(&["a", "list", "flags"]);
+        let rest: Vec<String> = (0..g.rng.below(4)).map(|_| if g.rng.chance(1, 4) { format!("{{ {} }}", word(&mut g.rng)) } else { word(&mut g.rng) }).collect();
+        let text = format!("{}={{ {{}} {} }} id={}", key, rest.join(" "), g.rng.below(100));
+        let ty = if rest.iter().all(|r| r.starts_with('{')) && g.rng.chance(1, 2) { format!("st({}:seq(seq(any)))", key) } else { format!("st({}:seq(ign);id:opt(i64))", key) };
+        let enc = if i % 2 == 0 { Enc::W } else { Enc::U };
+        emit_pair_with(g, enc, &parse_ty(&ty).unwrap(), text.as_bytes(), Some("!array-leading-empty"), None);
+    }
+    for i in 0..12 {
+        // a header value read as a sequence: the tape path yields [name, body], the reader path ignores the
+        // current token in deserialize_seq
+        let hdr = *g.rng.pick(&["rgb", "hsv", "LIST", "hsv360"]);
+        let n = g.rng.range(1, 4);
+        let body: Vec<String> = (0..n).map(|_| g.rng.below(256).to_string()).collect();
+        let tail = if g.rng.chance(1, 2) { format!(" name={}", word(&mut g.rng)) } else { String::new() };
+        let text = format!("color = {} {{ {} }}{}", hdr, body.join(" "), tail);
+        let ty = *g.rng.pick(&["st(color:seq(any))", "st(color:seq(any);name:opt(str))", "map(seq(any))", "st(color:opt(seq(ign)))"]);
+        let enc = if i % 2 == 0 { Enc::W } else { Enc::U };
+        emit_pair_with(g, enc, &parse_ty(ty).unwrap(), text.as_bytes(), Some("!text-reader-header"), None);
+    }
     for (kind, ty, text) in [
-        ("array-leading-empty", "st(a:seq(seq(any)))", &b"a={ {} {x} }"[..]),
-        ("array-leading-empty", "st(a:seq(ign))", b"a={ {} 1 2 }"),
-        ("first-field-operator-repaired", "st(a:st(b:prop(str)))", b"a={ b ?= c }"),
-        ("first-field-operator-repaired", "st(a:st(b:prop(str)))", b"a={ b != c }"),
-        ("exact-operator-split-repaired", "st(a:prop(str);b:opt(str))", b"a==b"),
+        ("exact-operator-split-repaired", "st(a:prop(str);b:opt(str))", &b"a==b"[..]),
         ("exact-operator-split-repaired", "st(a:prop(str);b:opt(str))", b"a == b            "),
+        ("first-field-operator-repaired", "st(a:st(b:prop(str)))", b"a={ b ?= c }"),
     ] {
         g.emit(format!("x-probe {} w1252 {} {}", kind, ty, hex(text)));
     }
